@@ -80,6 +80,18 @@ CLAIMS = {
         note="Trusted: iterator protocol semantics.",
         ref="DESIGN.md section 3, C20",
     ),
+    "C01": dict(
+        technique="static analysis: boundary-escape provenance, regular-language equality of the folded delimiter patterns (boundary as an opaque symbol) incl. first-set, hold-back provenance on all paths of next_event/last_newline, guarded-effect extraction of the helper loops, sibling equality",
+        text="The whole property (byte-exact round trip for all contents x all chunkings) quantifies over run-time bytes and is not decided. Decided necessary conditions, each of which breaks chunk-independence or exactness when violated: the boundary passes re.escape before every re.compile; the delimiter patterns denote exactly 'line break -- boundary (--)? blanks line break' and every match starts with CR or LF (automaton decisions); while more data is expected the emitted and the deleted prefix are the same hold-back bound, that bound is last_newline() (or max(last_newline(), len(buffer) - len(boundary) - K) with K >= 3, and only while no complete boundary is buffered), last_newline() is the minimum of the last LF and the last CR (each defaulting to len(buffer)), the final Data of a part is content up to match.start() with the delimiter consumed to match.end(); the helper loops handle every event class, accumulate/flush/stream/rewind under the right guards, equally in sync and async; both form accessors hand the Latin-1 boundary, charset default and their own stream to their own helper.",
+        note="Partial: structural preconditions of exactness, not the equality itself. parse_header quoting round trip is not decided.",
+        ref="DESIGN.md section 3, C01",
+    ),
+    "C15": dict(
+        technique="static analysis: guarded-effect extraction of the helper loops (increment / comparison / raise with lexical guards and same-block ordering), strictness of the comparisons, folded status constant, bounded hold-back idiom rule on the decoder",
+        text="Decides limit exactness structurally: field bytes are counted by len(event.data) on exactly the in-memory field paths and compared with strict > (guarded by 'is not None') directly after the increment in the same Data iteration; parts are counted by exactly 1 on exactly the last-Data paths of fields and files and compared with strict >; both raise RequestEntityTooLarge whose constructor folds to 413; sync and async helpers are equal after normalisation; upload data is written per event; the decoder's hold-back is clamped independently of the data (defect F23 - unbounded buffering of a part that starts with CR - was found by this rule and repaired). Not decided: the numeric buffering bound for all chunkings, spooled-file roll-over.",
+        note="Partial by construction. The clamp's soundness condition (K >= 3, only while no boundary is buffered) is checked by C01/R1.3.",
+        ref="DESIGN.md section 3, C15",
+    ),
 }
 
 NOT_APPLICABLE = {
